@@ -128,6 +128,8 @@ def cases_for(payloads, depth, family, tier_paths=None, noise=(), noise_only=Fal
         use_paths = paths
         if p.get("contexts") == "top-only":
             use_paths = [[BY_NAME["top"]]]
+        elif isinstance(p.get("contexts"), (list, tuple)):
+            use_paths = [path for path in paths if all(c.name in p["contexts"] for c in path)]
         for path in use_paths:
             src, line = compose(path, p)
             if not noise_only:
